@@ -343,10 +343,34 @@ def rule_case_mapping(ctx: Ctx, rep: Report) -> None:
             ok = bool(ascii_guard) and g.path_avoiding(g.nodes_containing(a), [c_.test_id for c_ in ascii_guard if c_.test_id >= 0]) is None
             rep.ob(rule, f"_decode:{norm(a)}", ok, d.where(a), "behind an isascii() refusal" if ok else
                    f"`{norm(a)}` maps non-ascii characters into the charset (U+212A -> 'k'): an all-capitals string carrying one is decoded as if written in ascii")
+    # (c) elsewhere, a function that answers the lowered spelling of an address (a lookup key) lowers
+    # the all-capitals spelling only: under a test that the text equals its own upper case
+    for fi in sorted(ctx.prog.functions.values(), key=lambda f: f.qualname):
+        if fi.qualname in decoders or not fi.module.name.startswith(("btclib.wallet", "btclib.b32", "btclib.script.script_pub_key", "btclib.bip21", "btclib.silent_payments")):
+            continue
+        a_ = fi.node.args
+        sp = {p_.arg for p_ in a_.posonlyargs + a_.args if p_.annotation is not None and str(norm(p_.annotation)).split(" |")[0] in ("String", "str")}
+        if not sp:
+            continue
+        gf = None
+        for r in own_nodes(fi.node):
+            if not (isinstance(r, ast.Return) and r.value is not None):
+                continue
+            low = [x for x in ast.walk(r.value) if isinstance(x, ast.Call) and isinstance(x.func, ast.Attribute) and x.func.attr in ("lower", "casefold") and not x.args]
+            # a bool answer (`x.lower().startswith(...)`) is a question about the string, not a spelling of it
+            low = [x for x in low if not any(isinstance(p_, ast.Call) and isinstance(p_.func, ast.Attribute) and p_.func.attr in ("startswith", "endswith") and x in ast.walk(p_.func.value) for p_ in ast.walk(r.value))]
+            if not low or "address" not in fi.name.lower() + " ".join(sp).lower():
+                continue
+            n += 1
+            gf = gf or ctx.cfg(fi)
+            tests = [str(t).replace(" ", "") for t, pol in gf.facts_at_ast(low[0]) if pol]
+            ok = any(".upper()==" in t or "==" in t and t.endswith(".upper()") or ".isupper()" in t for t in tests)
+            rep.ob(rule, f"{fi.qualname}:lowered_key", ok, fi.where(low[0]), "only the all-capitals spelling is lowered" if ok else
+                   f"`{norm(low[0])[:50]}` lowers whatever case the string is in: a mixed-case string, which BIP173 refuses, is answered as the address it misspells")
     per_char = PT.has(d.node, "$t = ''.join(($c.lower() if $c.isascii() else $c for $c in $t))", {})
     rep.ob(rule, "_decode:lowering_is_ascii_only", per_char or bool(ascii_guard), d.where(), "lowered character by character, ascii only" if per_char else "whole-string lowering behind an isascii() refusal" if ascii_guard else
            "no ascii-only lowering found")
-    rep.floor(rule, 3)
+    rep.floor(rule, 4)
 
 
 def rule_text_admission_(ctx: Ctx, rep: Report) -> None:
